@@ -155,8 +155,8 @@ VEC_T = ["V_u16_u64", "S_u64", "V_u8_u8", "V_u8_u16", "V_u8_u32", "V_u32_u8", "V
          "S_u8", "S_u16", "S_u32", "S_leu16", "US1", "US2", "US3", "US6", "US7", "US8", "US9", "US10"]
 FLEX_T = ["X_u8_u64", "X_u8_u8", "X_u32_u8", "X_bool_u16", "X_vu8_u8", "X_vi32_u16", "X_s8_u16", "X_vu8le_le", "X_x_u8", "X_us2_u16", "X_ue1_u8", "US4", "UE8"]
 # (UE14 is left to the exhaustive model: it exhibits known finding #18, and a trace is judged only up to its first rejected event)
-COMP_T = ["US1", "US2", "US3", "US4", "US5", "US6", "US7", "US8", "US9", "US10", "US11", "UE1", "UE2", "UE3", "UE4", "UE5", "UE6", "UE7", "UE8", "UE9", "UE10", "UE11", "UE12", "UE13", "UE15", "UE16", "PE1", "GU1", "GU2", "GX1", "GX2", "GP1", "GP2"]
-SIZED_T = ["bool", "arr_bool3", "SS1", "SS2", "SS3", "SS4", "SS5", "SS6", "SE1", "SE2", "SE3", "SE4", "SE5", "le_u16", "be_u32", "GS1", "GS2", "GE1", "GE2"]
+COMP_T = ["US1", "US2", "US3", "US4", "US5", "US6", "US7", "US8", "US9", "US10", "US11", "UE1", "UE2", "UE3", "UE4", "UE5", "UE6", "UE7", "UE8", "UE9", "UE10", "UE11", "UE12", "UE13", "UE15", "UE16", "PE1", "GU1", "GU2", "GX1", "GX2", "GP1", "GP2", "US12"]
+SIZED_T = ["bool", "arr_bool3", "SS1", "SS2", "SS3", "SS4", "SS5", "SS6", "SE1", "SE2", "SE3", "SE4", "SE5", "le_u16", "be_u32", "GS1", "GS2", "GE1", "GE2", "arr_unit_2", "arr_ss3_2", "arr_se1_2", "SS8"]
 ALL_T = sorted(set(VEC_T + FLEX_T + COMP_T + SIZED_T))
 
 def trace(driver, types, nq, nt, steps=40):
@@ -324,7 +324,8 @@ PLANS.update({
     "C10": io_plan(IO_TEXT, "receiver model fed arbitrary streams: all strings over {0,1,2,255} up to RawLen, a valid stream with one byte replaced (first 12 positions x 3 values), a valid stream truncated at every position; every chunking; non-trivial = all",
                    ["iorecv.arbitrary.*"],
                    [io_recv_cfg(m, 2, 4, 0, "code", True, arbitrary=True, rawlen=r) for m, r in [("UE6", 4), ("X_vu8_u8", 4), ("US2", 3), ("V_u8_u16", 3), ("UE11", 3), ("UE2", 3)]]
-                   + [io_recv_cfg("UE6", 2, 4, 0, "code", True, arbitrary=True, rawlen=3, retain=1)],
+                   + [io_recv_cfg("UE6", 2, 4, 0, "code", True, arbitrary=True, rawlen=3, retain=1)]
+                   + [io_recv_cfg("US3", 2, 4, 0, "code", True, arbitrary=True, rawlen=2)],           # a string message: contents cut inside a character
                    [io_recv_cfg(m, 2, 6, 0, "code", True, arbitrary=True, rawlen=r) for m, r in [("UE6", 5), ("X_vu8_u8", 5), ("US2", 4), ("UE1", 4), ("X_s8_u16", 4)]]),
 })
 
